@@ -169,6 +169,8 @@ def step (t : Tbl) (j : Json) : Tbl × Json :=
                 | none => .error "mul")
              | [.str "add_source"] => (match addT cur t with | .ok r => go r rest | .error e => .ok (.error e))
              | [.str "add_self"] => (match addT cur cur with | .ok r => go r rest | .error e => .ok (.error e))
+             | [.str "transpose"] => go (transposeT cur) rest
+             | [.str "concatenate"] => (match concatT [cur, cur] with | .ok r => go r rest | .error e => .ok (.error e))
              | _ => .error "step")
           | _ => .error "step"
       match go t steps.toList with
